@@ -197,11 +197,64 @@ def gen_workload(rng, tier):
     return w
 
 
+def enumerated_workloads():
+    """The finite part of the quantifier, enumerated completely: every dump_one/dump_many format x every
+    non-empty subset of its declared required attributes set to None x target {absent, pre-existing};
+    every incompatibility class x format x allow_changes x target state (x shell pattern)."""
+    import itertools
+
+    from iodata.api import FORMAT_MODULES
+
+    out = []
+    for op, table in (("dump_one", ONE), ("dump_many", MANY)):
+        for fmt in sorted(table):
+            name, recipes = table[fmt]
+            req = list(getattr(FORMAT_MODULES[fmt], op).required)
+            for r in range(1, len(req) + 1):
+                for sub in itertools.combinations(req, r):
+                    for pre in (None, PRE):
+                        for frame in ((0,) if op == "dump_one" else (0, 1)):
+                            w = {"op": op, "fmt": fmt, "select": "explicit", "filename": name or "o.json", "allow_changes": False,
+                                 "kwargs": {}, "target_pre": pre, "knobs": {}, "enumerated": True,
+                                 "defect": {"cls": "none_attrs", "attrs": list(sub), "frame": frame}}
+                            if op == "dump_one":
+                                w["objs"] = [copy.deepcopy(recipes[0])]
+                            else:
+                                w["objs"] = [copy.deepcopy(recipes[0]) for _ in range(3)]
+                                for o in w["objs"]:
+                                    o["frame"] = 0
+                                w["iter_kind"] = "gen"
+                            out.append(w)
+    variants = [[0, 1], [1, 0], [0, 0], [0, 0, 0], [0, 2], [2, 1], [1, 1], None]
+    for cls, (_mod, fmts, _conv) in sorted(INCOMPAT.items()):
+        for fmt in fmts:
+            name, recipes = ONE[fmt]
+            for ri, recipe in enumerate(recipes[:3]):
+                for allow in (False, True):
+                    for pre in (None, PRE):
+                        for var in (variants if cls == "gen_contraction" else [None]):
+                            d = {"cls": cls, "frame": 0}
+                            if var:
+                                d["variant"] = var
+                            out.append({"op": "dump_one", "fmt": fmt, "select": "explicit", "filename": name or "o.json",
+                                        "allow_changes": allow, "kwargs": {}, "target_pre": pre, "knobs": {}, "enumerated": True,
+                                        "defect": d, "objs": [copy.deepcopy(recipe)]})
+    return out
+
+
 def plan(tier, seed, args):
     n = args.runs or (2400 if tier == "quick" else 24000)
     tasks = []
-    for i in range(n):
-        tasks.append({"run": i, "seed": seed, "tier": tier})
+    run = 0
+    if args.only != "seeded":
+        ws = enumerated_workloads()
+        for i in range(0, len(ws), 40):
+            tasks.append({"run": run, "seed": seed, "tier": tier, "enum": ws[i:i + 40]})
+            run += 1
+    if args.only != "enum":
+        for i in range(n):
+            tasks.append({"run": run, "seed": seed, "tier": tier})
+            run += 1
     return tasks
 
 
@@ -531,7 +584,29 @@ def _kbucket(k, n):
     return "mid"
 
 
+def run_enum_task(task):
+    stats = Stats()
+    viols = []
+    dig = []
+    for w in task["enum"]:
+        rec = run_once(copy.deepcopy(w), [])
+        vs = judge({**w, "faults": []}, rec, None)
+        viols.extend(vs)
+        et = type(rec["exc"]).__name__ if rec["exc"] is not None else "ok"
+        stats.inc(f"outcome.{et}")
+        stats.inc("probe.enumerated_defect_workloads")
+        stats.inc("steps", rec["steps"])
+        d = w["defect"]
+        if rec["missing"] or rec["incompat"]:
+            stats.add("nontrivial", common.short(repr((w["op"], w["fmt"], d, w["target_pre"] is not None, w["allow_changes"]))))
+        dig.append((w["op"], w["fmt"], common.jdump(d), et))
+    return {"n": len(task["enum"]), "digest": common.short(repr(dig)), "violations": viols, "stats": stats.export(),
+            "sample": {"mode": "enumerated defect workload", "workload": _brief(task["enum"][0]), "outcome": dig[0][3]} if task["run"] % 7 == 0 else None}
+
+
 def run_task(task):
+    if "enum" in task:
+        return run_enum_task(task)
     rng = common.rng_for(task["seed"], ID, task["run"])
     tier = task["tier"]
     w = gen_workload(rng, tier)
@@ -636,5 +711,7 @@ def coverage_extra(stats, tier):
         "fault_kinds_configured": ["text_write_fail", "raw_write_fail", "raw_short_write", "close_fail", "disk_full (persistent)",
                                    "iter_raise (caller generator)", "short+fail combination"],
         "valid_workloads": sorted(stats.s.get("valid_workloads", [])),
+        "enumerated_defect_workloads": stats.c.get("probe.enumerated_defect_workloads", 0),
+        "enumeration": "every format x every non-empty subset of its required list x target state (x frame index for dump_many) and every incompatibility class x format x allow_changes x target state are enumerated completely; write-fault positions are enumerated per workload (thorough) or sampled (quick)",
         "simulated_time": "logical steps (LINE events inside iodata); iodata has no clock",
     }
